@@ -312,7 +312,13 @@ def rules_c20(ctx):
     # the closure that tests the coordinates: a closure anywhere under the range constructor that throws (the point loop may be a
     # std::for_each closure or a plain loop in the constructor body)
     CT = 'pgm::MultidimensionalPGMIndex::MultidimensionalPGMIndex'
-    inner_fns = [f for u_ in U for f in u_.functions.values() if f.tname.startswith(CT + '::(lambda)') and f.name == 'operator()' and
+    # ... or under a new helper whose body was inlined into a function under the constructor (rules/inline.py)
+    roots = {CT}
+    for u_ in U:
+        for f in u_.functions.values():
+            if f.tname == CT or f.tname.startswith(CT + '::(lambda)'):
+                roots |= {x for x in (getattr(f, 'inlined_from', None) or []) if not x.startswith('closure ')}
+    inner_fns = [f for u_ in U for f in u_.functions.values() if any(f.tname.startswith(r_ + '::(lambda)') for r_ in roots) and f.name == 'operator()' and
                  any(f.n(i)['c'] == 'CXXThrowExpr' for i in f.all_ids())]
     if not inner_fns:
         raise AnalysisBroken('G8: no closure under the MultidimensionalPGMIndex range constructor throws (anchor vanished)')
